@@ -48,6 +48,16 @@ def setup_transfers(s, p):
         p.transfers.append(s.add("transfer", "transfer_l", l))
     for c in p.ccs:
         p.transfers.append(s.add("transfer", "transfer_c", c))
+    # the same requests with COPIES of the linkage / convention values (static storage, stack, heap: addresses far below and far
+    # above the interned originals): transfers are unified by the VALUE of their operands
+    for rep in range(2):
+        for i, l in enumerate(p.linkages):
+            for j, c in enumerate(p.ccs):
+                s.add("transfer", "transfer", "^" * (1 + (i + j + rep) % 3) + l, "^" * (1 + (i + 2 * j + rep) % 3) + c if (i + j) % 2 else c)
+        for i, l in enumerate(p.linkages[:6]):
+            s.add("transfer", "transfer_l", "^" * (1 + (i + rep) % 3) + l)
+        for i, c in enumerate(p.ccs):
+            s.add("transfer", "transfer_c", "^" * (1 + (i + rep) % 3) + c)
     # value equality on every pair of a sample
     samp = p.transfers[:14]
     for a in samp:
@@ -61,13 +71,13 @@ def setup_transfers(s, p):
             s.add("value", "cc_eq", a, b)
 
 
-def gen_c01(tier, seed):
+def gen_c01(tier, seed, n=None):
     rnd = random.Random(seed)
     s = Script()
     preamble(s)
     p = Pools(s, rnd)
     setup_transfers(s, p)
-    n = 2500 if tier == "quick" else 60000
+    n = n or (2500 if tier == "quick" else 6000)
     type_lines = []
 
     def seq():
@@ -155,7 +165,7 @@ def gen_c01(tier, seed):
     return s
 
 
-def gen_c04(tier, seed, known):
+def gen_c04(tier, seed, known, n=None):
     rnd = random.Random(seed)
     s = Script()
     preamble(s)
@@ -165,7 +175,7 @@ def gen_c04(tier, seed, known):
         ["+", "-", "()", "[]", "new[]", "x", "y", "value", "T", "operator", "", "a\0b", "\xff\xfe"]
     for i in range(40):
         spellings.append("".join(rnd.choice("abcxyz_") for _ in range(rnd.randrange(1, 6))))
-    n = 2500 if tier == "quick" else 60000
+    n = n or (2500 if tier == "quick" else 6000)
     issued = []
     xlists = ["@l%d" % i for i in range(8)]
     templates = ["@m%d" % i for i in range(4)]
@@ -190,7 +200,8 @@ def gen_c04(tier, seed, known):
                 req = ("string", op, hexw(rnd.choice(spellings)))
             elif op in ("identifier", "operator", "logogram", "linkage", "convention"):
                 kind = {"identifier": "identifier", "operator": "name", "logogram": "logogram", "linkage": "linkage", "convention": "cc"}[op]
-                req = (kind, op, p.pick(p.strings))
+                # one time in five the String operand is the equally spelled String of ANOTHER Lexicon (the factories take any ipr::String)
+                req = (kind, op, ("^" if rnd.random() < 0.2 else "") + p.pick(p.strings))
             elif op == "identifier_w":
                 req = ("identifier", op, hexw(rnd.choice(spellings)))
             elif op == "suffix":
@@ -208,7 +219,7 @@ def gen_c04(tier, seed, known):
             elif op == "this":
                 req = ("expr", op, p.pick(p.types))
             elif op == "literal":
-                req = ("expr", op, p.pick(p.types), p.pick(p.strings))
+                req = ("expr", op, p.pick(p.types), ("^" if rnd.random() < 0.2 else "") + p.pick(p.strings))
             elif op == "as_type_id":
                 req = ("type", op, p.pick(p.identifiers)) if p.identifiers else ("string", "string", hexw("q"))
         issued.append(req)
